@@ -251,7 +251,7 @@ func (e *Engine) runScripts(obls []*Obligation, dir string, timeoutS int, pool c
 				for k, piece := range o.pieces {
 					fp := filepath.Join(dir, fmt.Sprintf("%s.piece%d.smt2", name, k))
 					os.WriteFile(fp, []byte("; part-wise variant of "+o.ID+"\n"+Script(piece, false, nil)), 0o644)
-					go func() { resP <- runPortfolioCtx(ctxP, fp, 10, false) }()
+					go func() { resP <- runPortfolioCtx(ctxP, fp, tmo, false) }()
 				}
 				for range o.pieces {
 					rp := <-resP
